@@ -42,6 +42,7 @@ from __future__ import annotations
 import ast
 from typing import Any, Dict, List, Optional, Sequence, Tuple
 
+from engines import c32norm as N
 from engines import exprir as X
 from engines import pyfacts as pf
 from engines import scalalite_enc as S
@@ -103,8 +104,25 @@ def _fmt_info(ctx: Ctx, fmt: str, where: str) -> Tuple[str, int, str]:
     return order, size, kind
 
 
+def _stream_module() -> pf.Module:
+    """byte_reader.py in normal form: private helpers of the stream classes (`_read_fixed(fmt, n)`, `_append(bs)`) inlined into the operations that
+    call them, load-chain locals substituted, guards as if/else"""
+    return N.normalise_module(pf.load(BR), lambda c, f: 'cheap', exclude=lambda n: not n.startswith('_'))   # public operations are judged on their own
+
+
+def _appended(fn: pf.FuncDef, st: ast.stmt) -> Optional[ast.expr]:
+    """E when `st` appends E to a buffer attribute of self: `self._b += E` / `self._b.extend(E)`"""
+    me = W.param_names(fn)[0]
+    if isinstance(st, ast.AugAssign) and isinstance(st.op, ast.Add) and isinstance(st.target, ast.Attribute) and isinstance(st.target.value, ast.Name) and st.target.value.id == me:
+        return st.value
+    if isinstance(st, ast.Expr) and isinstance(st.value, ast.Call) and isinstance(st.value.func, ast.Attribute) and st.value.func.attr == 'extend' and len(st.value.args) == 1 \
+            and not st.value.keywords and isinstance(st.value.func.value, ast.Attribute) and isinstance(st.value.func.value.value, ast.Name) and st.value.func.value.value.id == me:
+        return st.value.args[0]
+    return None
+
+
 def _r1(ctx: Ctx):
-    m = pf.load(BR)
+    m = _stream_module()
     rd = W.methods(m.cls('ByteReader'))
     wr = W.methods(m.cls('ByteWriter'))
     # offset attribute and buffer attribute of the reader
@@ -163,23 +181,42 @@ def _r1(ctx: Ctx):
         ctx.check(not msg, 'R1', f'{BR}::ByteReader.{rname}', '; '.join(msg), m.path, rfn.lineno, detail={'fmt': rfmt, 'width': width, 'advance': adv})
     # bool: one byte, non-zero = True
     ctx.need('write_bool' in wr and 'read_bool' in rd, 'anchor vanished: read_bool/write_bool')
-    wb = W.body_wo_doc(wr['write_bool'])
-    okw = False
-    if len(wb) == 1 and isinstance(wb[0], ast.AugAssign) and isinstance(wb[0].value, ast.IfExp):
-        ie = wb[0].value
-        t, f_ = ie.body, ie.orelse
-        okw = (isinstance(t, ast.Constant) and isinstance(f_, ast.Constant) and isinstance(t.value, bytes) and isinstance(f_.value, bytes)
-               and len(t.value) == 1 and len(f_.value) == 1 and t.value != b'\x00' and f_.value == b'\x00' and pf.nsrc(ie.test) == W.param_names(wr['write_bool'])[1])
+    wfn = wr['write_bool']
+    wb = W.body_wo_doc(wfn)
+    v = W.param_names(wfn)[1]
+    t_ = f_ = None
+    shown = ''
+    if len(wb) == 1 and _appended(wfn, wb[0]) is not None and isinstance(_appended(wfn, wb[0]), ast.IfExp):
+        ie = _appended(wfn, wb[0])
+        test, t_, f_ = ie.test, ie.body, ie.orelse
+        shown = pf.nsrc(ie)
+    elif len(wb) == 1 and isinstance(wb[0], ast.If) and len(wb[0].body) == 1 and len(wb[0].orelse) == 1 and _appended(wfn, wb[0].body[0]) is not None \
+            and _appended(wfn, wb[0].orelse[0]) is not None and pf.nsrc(getattr(wb[0].body[0], 'target', None) or wb[0].body[0].value.func.value) \
+            == pf.nsrc(getattr(wb[0].orelse[0], 'target', None) or wb[0].orelse[0].value.func.value):
+        test, t_, f_ = wb[0].test, _appended(wfn, wb[0].body[0]), _appended(wfn, wb[0].orelse[0])
+        shown = f'{pf.nsrc(t_)} if {pf.nsrc(test)} else {pf.nsrc(f_)}'
     else:
         raise AnalysisError(f'{BR}::ByteWriter.write_bool: unrecognised body')
-    ctx.check(okw, 'R1', f'{BR}::ByteWriter.write_bool', f'write_bool appends `{pf.nsrc(wb[0].value)}`: not exactly one byte, zero for False and non-zero for True', m.path, wr['write_bool'].lineno)
+    neg = False
+    while isinstance(test, ast.UnaryOp) and isinstance(test.op, ast.Not):
+        test, neg = test.operand, not neg
+    if isinstance(test, ast.Call) and pf.dotted(test.func) == 'bool' and len(test.args) == 1 and not test.keywords:
+        test = test.args[0]
+    ctx.need(isinstance(test, ast.Name) and test.id == v, f'{BR}::ByteWriter.write_bool: the byte is selected by `{pf.nsrc(test)}`, not by the truth of the argument')
+    if neg:
+        t_, f_ = f_, t_
+    ctx.need(all(isinstance(c_, ast.Constant) and isinstance(c_.value, bytes) for c_ in (t_, f_)), f'{BR}::ByteWriter.write_bool: appends `{shown}`, not literal bytes')
+    okw = len(t_.value) == 1 and len(f_.value) == 1 and t_.value != b'\x00' and f_.value == b'\x00'
+    ctx.check(okw, 'R1', f'{BR}::ByteWriter.write_bool', f'write_bool appends `{shown}`: not exactly one byte, zero for False and non-zero for True', m.path, wfn.lineno)
     rb = rd['read_bool']
     cmpn = [n for n in ast.walk(rb) if isinstance(n, ast.Compare)]
     incs = [s for s in ast.walk(rb) if isinstance(s, ast.AugAssign)]
-    ctx.need(len(cmpn) == 1 and len(incs) == 1 and isinstance(cmpn[0].left, ast.Subscript), f'{BR}::ByteReader.read_bool: unrecognised body')
+    ctx.need(len(cmpn) == 1 and len(incs) == 1 and isinstance(cmpn[0].left, ast.Subscript) and len(cmpn[0].ops) == 1 and isinstance(incs[0].op, ast.Add)
+             and W.const_int(cmpn[0].comparators[0]) is not None and W.const_int(incs[0].value) is not None and isinstance(cmpn[0].ops[0], (ast.NotEq, ast.Eq, ast.Gt))
+             and pf.nsrc(cmpn[0].left.slice) == pf.nsrc(incs[0].target), f'{BR}::ByteReader.read_bool: unrecognised body')
     c = cmpn[0]
-    okr = (len(c.ops) == 1 and isinstance(c.ops[0], ast.NotEq) and W.const_int(c.comparators[0]) == 0 and pf.nsrc(c.left.slice) == pf.nsrc(incs[0].target)
-           and isinstance(incs[0].op, ast.Add) and W.const_int(incs[0].value) == 1)
+    # byte != 0 / byte > 0 (a byte is unsigned): True exactly for the non-zero bytes; anything else with literal operands is a different decoding
+    okr = isinstance(c.ops[0], (ast.NotEq, ast.Gt)) and W.const_int(c.comparators[0]) == 0 and W.const_int(incs[0].value) == 1
     ctx.check(okr, 'R1', f'{BR}::ByteReader.read_bool', f'read_bool evaluates `{pf.nsrc(c)}` and advances by `{pf.nsrc(incs[0].value)}`: expected byte != 0 and an advance of 1', m.path, rb.lineno)
     # byte strings
     ctx.need('read_bytes_view' in rd and 'read_bytes' in rd and 'write_bytes' in wr, 'anchor vanished: read_bytes[_view]/write_bytes')
@@ -187,20 +224,32 @@ def _r1(ctx: Ctx):
     n = W.param_names(rv)[1]
     sls = [x for x in ast.walk(rv) if isinstance(x, ast.Slice)]
     incs = [s for s in ast.walk(rv) if isinstance(s, ast.AugAssign)]
-    ctx.need(len(sls) == 1 and len(incs) == 1 and sls[0].lower is not None and sls[0].upper is not None, f'{BR}::ByteReader.read_bytes_view: unrecognised body')
+    ctx.need(len(sls) == 1 and len(incs) == 1 and sls[0].lower is not None and sls[0].upper is not None and sls[0].step is None and isinstance(incs[0].op, ast.Add),
+             f'{BR}::ByteReader.read_bytes_view: unrecognised body')
     off = pf.nsrc(sls[0].lower)
-    ok = (pf.nsrc(sls[0].upper) == f'{off} + {n}' and pf.nsrc(incs[0].target) == off and isinstance(incs[0].op, ast.Add) and pf.nsrc(incs[0].value) == n)
+    up = sls[0].upper
+    ctx.need(isinstance(up, ast.BinOp) and isinstance(up.op, ast.Add) and off in (pf.nsrc(up.left), pf.nsrc(up.right)) and pf.nsrc(incs[0].target) == off,
+             f'{BR}::ByteReader.read_bytes_view: the view is not [off : off + <count>] with `off += <count>`')
+    width = up.right if pf.nsrc(up.left) == off else up.left
+    # both the width of the view and the advance are expressions over the count parameter and literals: compared as such
+    ctx.need(all(isinstance(x, (ast.Name, ast.Constant, ast.BinOp, ast.operator)) for e_ in (width, incs[0].value) for x in ast.walk(e_) if not isinstance(x, ast.expr_context))
+             and all(x.id == n for e_ in (width, incs[0].value) for x in ast.walk(e_) if isinstance(x, ast.Name)), f'{BR}::ByteReader.read_bytes_view: width / advance are not expressions over `{n}`')
+    ok = pf.nsrc(width) == n and pf.nsrc(incs[0].value) == n
     ctx.check(ok, 'R1', f'{BR}::ByteReader.read_bytes_view', f'view is [{pf.nsrc(sls[0].lower)} : {pf.nsrc(sls[0].upper)}] and the offset advances by `{pf.nsrc(incs[0].value)}`; expected [off : off + {n}] and += {n}',
               m.path, rv.lineno)
     rbb = W.body_wo_doc(rd['read_bytes'])
-    ok = len(rbb) == 1 and isinstance(rbb[0], ast.Return) and pf.nsrc(rbb[0].value) == f'self.read_bytes_view({W.param_names(rd["read_bytes"])[1]}).tobytes()'
-    ctx.check(ok, 'R1', f'{BR}::ByteReader.read_bytes', 'read_bytes is not read_bytes_view(n).tobytes()', m.path, rd['read_bytes'].lineno)
+    nb = W.param_names(rd['read_bytes'])[1]
+    view = f'self.read_bytes_view({nb})'
+    ctx.need(len(rbb) == 1 and isinstance(rbb[0], ast.Return) and rbb[0].value is not None and pf.nsrc(rbb[0].value) in (f'{view}.tobytes()', f'bytes({view})'),
+             f'{BR}::ByteReader.read_bytes: not recognised as the bytes of read_bytes_view({nb})')
+    ctx.ok('R1', f'{BR}::ByteReader.read_bytes', {'returns': pf.nsrc(rbb[0].value)})
     wbb = W.body_wo_doc(wr['write_bytes'])
-    ok = len(wbb) == 1 and isinstance(wbb[0], ast.AugAssign) and isinstance(wbb[0].op, ast.Add) and pf.nsrc(wbb[0].value) == W.param_names(wr['write_bytes'])[1]
-    ctx.check(ok, 'R1', f'{BR}::ByteWriter.write_bytes', 'write_bytes does not append exactly its argument', m.path, wr['write_bytes'].lineno)
+    ctx.need(len(wbb) == 1 and _appended(wr['write_bytes'], wbb[0]) is not None and pf.nsrc(_appended(wr['write_bytes'], wbb[0])) == W.param_names(wr['write_bytes'])[1],
+             f'{BR}::ByteWriter.write_bytes: not recognised as appending exactly its argument')
+    ctx.ok('R1', f'{BR}::ByteWriter.write_bytes', {'appends': W.param_names(wr['write_bytes'])[1]})
     # the reader starts at offset 0 by default
     init = rd.get('__init__')
-    ctx.need(init is not None and init.args.defaults, 'anchor vanished: ByteReader.__init__ offset default')
+    ctx.need(init is not None and init.args.defaults and W.const_int(init.args.defaults[-1]) is not None, 'anchor vanished: ByteReader.__init__ literal offset default')
     ctx.check(W.const_int(init.args.defaults[-1]) == 0, 'R1', f'{BR}::ByteReader.__init__::offset default', 'default start offset is not 0', m.path, init.lineno)
 
 
@@ -834,12 +883,15 @@ class Canon:
                 tgt, it = n.target, n.iter
             if tgt is None:
                 continue
-            its = pf.nsrc(it)
             inner = tgt
             if isinstance(it, ast.Call) and pf.dotted(it.func) == 'enumerate' and isinstance(tgt, ast.Tuple) and len(tgt.elts) == 2 and it.args:
                 inner = tgt.elts[1]
                 it = it.args[0]
-                its = pf.nsrc(it)
+            # a sequence held in a local (a helper's parameter after inlining) or copied with list(...) / tuple(...) is the sequence it was built from
+            it = _resolve(self.fn, it)
+            while isinstance(it, ast.Call) and pf.dotted(it.func) in ('list', 'tuple') and len(it.args) == 1 and not it.keywords:
+                it = _resolve(self.fn, it.args[0])
+            its = pf.nsrc(it)
             if isinstance(it, ast.Call) and pf.dotted(it.func) == 'zip' and isinstance(inner, ast.Tuple) and len(inner.elts) == len(it.args):
                 # parallel iteration: the role of a target is decided by the sequence it is drawn from
                 for sub_t, sub_it in zip(inner.elts, it.args):
@@ -1822,6 +1874,7 @@ def _r6(ctx: Ctx, m: pf.Module, classes: Dict[str, ast.ClassDef], canon: Dict[st
                   (f'{sorted(set(rattr) - set(fields))} does not exist (AttributeError)' if set(rattr) - set(fields) else f'{sorted(set(fields) - set(rattr))} is dropped'),
                   m.path, ctor.lineno)
         for prm_, ok_, what_ in W.type_params_passed(classes, cname, cr.fn, ctor, vc):
+            ctx.need(ok_ is not None, f'{cname}.{FROM}: the {vc.name} is built with {prm_} = {what_}: not recognised as the type\'s own {prm_} nor as something else')
             ctx.check(ok_, 'R6', f'{F}::{cname}.{FROM}::{vc.name}({prm_}=) comes from the type',
                       f'{cname}.{FROM} builds the {vc.name} with {prm_} = {what_} instead of self.{prm_}: the bytes do not carry the {prm_}, so a value of {cname}<X> decodes with another {prm_}',
                       m.path, ctor.lineno, detail={'param': prm_})
@@ -1875,58 +1928,186 @@ def _tokens_of_case(rel: str, label: str) -> str:
     return ''.join(out)
 
 
+B64_STANDARD = {'base64.b64encode', 'base64.standard_b64encode', 'b64encode', 'standard_b64encode'}
+B64_OTHER = {'urlsafe_b64encode', 'b32encode', 'b32hexencode', 'b16encode', 'a85encode', 'b85encode', 'z85encode', 'encodebytes', 'encodestring', 'hexlify', 'b2a_hex', 'b2a_base64'}
+ASCII_SUPERSETS = {'utf-8', 'utf8', 'ascii', 'us-ascii', 'latin-1', 'latin1', 'iso-8859-1'}
+
+
+def _scala_vals(stmts: Sequence[tuple]) -> Dict[str, tuple]:
+    out: Dict[str, tuple] = {}
+    for st in stmts:
+        if st and st[0] == 'val' and isinstance(st[1], str):
+            out[st[1]] = X.from_scala(st[2])
+    return out
+
+
 def _r7(ctx: Ctx, m: pf.Module):
-    base = W.methods(m.cls('HailType'))
+    # entry points are read in normal form with every single-definition local substituted (mode 'all': no byte stream is threaded through these
+    # statements; `ByteWriter(buf)` / `_to_encoding(value)` held in a local are the call itself)
+    em = N.normalise_module(m, lambda c, f: 'all' if (c == 'HailType' and f in ('_to_encoding', '_from_encoding')) else None, exclude=lambda n: n.startswith('_convert_'))
+    base = W.methods(em.cls('HailType'))
     # _to_encoding / _from_encoding
     ctx.need('_to_encoding' in base and '_from_encoding' in base, 'anchor vanished: HailType._to_encoding/_from_encoding')
     te = base['_to_encoding']
     calls = {pf.nsrc(c) for c in pf.calls_in(te)}
     v = W.param_names(te)[1]
     bufs = [st.targets[0].id for st in te.body if isinstance(st, ast.Assign) and isinstance(st.targets[0], ast.Name) and pf.nsrc(st.value) == 'bytearray()']
-    ok = len(bufs) == 1 and f'self._convert_to_encoding(ByteWriter({bufs[0]}), {v})' in calls and any(isinstance(s, ast.Return) and pf.nsrc(s.value) == f'bytes({bufs[0]})' for s in te.body)
-    ctx.check(ok, 'R7', f'{F}::HailType._to_encoding', '_to_encoding does not return the bytes that _convert_to_encoding wrote into a fresh buffer', m.path, te.lineno)
+    ok = len(bufs) == 1 and f'self._convert_to_encoding(ByteWriter({bufs[0]}), {v})' in calls and any(isinstance(s, ast.Return) and pf.nsrc(s.value) in (f'bytes({bufs[0]})', bufs[0]) for s in te.body)
+    ctx.need(ok, f'{F}::HailType._to_encoding: not recognised as `buf = bytearray(); self._convert_to_encoding(ByteWriter(buf), {v}); return bytes(buf)`')
+    ctx.ok('R7', f'{F}::HailType._to_encoding', 'returns the bytes _convert_to_encoding wrote into a fresh buffer')
     fe = base['_from_encoding']
     b = W.body_wo_doc(fe)
     p = W.param_names(fe)[1]
-    ok = len(b) == 1 and isinstance(b[0], ast.Return) and pf.nsrc(b[0].value) in (f'self._convert_from_encoding(ByteReader(memoryview({p})))', f'self._convert_from_encoding(ByteReader({p}))')
-    ctx.check(ok, 'R7', f'{F}::HailType._from_encoding', '_from_encoding does not decode its whole argument from offset 0 with _convert_from_encoding', m.path, fe.lineno)
-    # EncodedLiteral
-    im = pf.load(IRPY)
+    ok = len(b) == 1 and isinstance(b[0], ast.Return) and b[0].value is not None and pf.nsrc(b[0].value) in (f'self._convert_from_encoding(ByteReader(memoryview({p})))', f'self._convert_from_encoding(ByteReader({p}))',
+                                                                                                      f'self._convert_from_encoding(ByteReader(memoryview({p}), 0))', f'self._convert_from_encoding(ByteReader({p}, 0))')
+    ctx.need(ok, f'{F}::HailType._from_encoding: not recognised as `return self._convert_from_encoding(ByteReader(memoryview({p})))`')
+    ctx.ok('R7', f'{F}::HailType._from_encoding', 'decodes its whole argument from offset 0')
+    # EncodedLiteral: the text it renders carries standard base64 of typ._to_encoding(value)
+    im = N.normalise_module(pf.load(IRPY), lambda c, f: 'all' if (c == 'EncodedLiteral' and f in ('encoded_value', 'head_str')) else None)
     ev = im.func('EncodedLiteral.encoded_value')
-    srcs = [pf.nsrc(c) for c in pf.calls_in(ev)]
-    ok = any(s == "base64.b64encode(self._typ._to_encoding(self._value)).decode('utf-8')" or s == 'base64.b64encode(self._typ._to_encoding(self._value)).decode()'
-             or s == "base64.b64encode(self._typ._to_encoding(self._value)).decode('ascii')" for s in srcs)
-    ctx.check(ok, 'R7', f'{IRPY}::EncodedLiteral.encoded_value', f'the literal does not carry standard base64 of self._typ._to_encoding(self._value) (calls: {srcs[:3]})', im.path, ev.lineno)
+    me = W.param_names(ev)[0]
+    cands: List[ast.expr] = []
+    for n in pf.walk_shallow(ev):
+        if isinstance(n, ast.Assign) and len(n.targets) == 1 and pf.nsrc(n.targets[0]) == f'{me}._encoded_value':
+            cands.append(n.value)
+        elif isinstance(n, ast.Return) and n.value is not None and pf.nsrc(n.value) != f'{me}._encoded_value':
+            cands.append(pf.resolve_expr(ev, n.value))
+    cons = f'{IRPY}::EncodedLiteral.encoded_value'
+    ctx.need(len(cands) >= 1, f'{cons}: no computation of the encoded text found')
+    verdict: List[Tuple[Optional[bool], str]] = []
+    for e in cands:
+        inner = e
+        if isinstance(inner, ast.Call) and isinstance(inner.func, ast.Attribute) and inner.func.attr == 'decode' and len(inner.args) <= 1 and not inner.keywords:
+            codec = pf.const_str(inner.args[0]) if inner.args else 'utf-8'
+            if codec is None or codec.lower().replace('_', '-') not in ASCII_SUPERSETS:
+                verdict.append((None, f'decoded with `{pf.nsrc(inner.args[0]) if inner.args else ""}`'))
+                continue
+            inner = inner.func.value
+        elif isinstance(inner, ast.Call) and pf.dotted(inner.func) == 'str' and len(inner.args) == 2 and pf.const_str(inner.args[1]) is not None:
+            inner = inner.args[0]
+        else:
+            verdict.append((None, f'`{pf.nsrc(e)[:70]}` is not <base64 bytes>.decode(...)'))
+            continue
+        d = pf.dotted(inner.func) if isinstance(inner, ast.Call) else None
+        if d is None or len(inner.args) != 1 or inner.keywords:
+            verdict.append((None, f'`{pf.nsrc(inner)[:70]}` is not a one-argument encoder call'))
+            continue
+        if pf.nsrc(inner.args[0]) != f'{me}._typ._to_encoding({me}._value)':
+            verdict.append((None, f'the bytes encoded are `{pf.nsrc(inner.args[0])[:60]}`, not {me}._typ._to_encoding({me}._value)'))
+            continue
+        if d in B64_STANDARD:
+            verdict.append((True, d))
+        elif d.split('.')[-1] in B64_OTHER:
+            verdict.append((False, f'`{d}` is not the standard base64 alphabet / framing'))
+        else:
+            verdict.append((None, f'unknown encoder `{d}`'))
+    bads = [t for k, t in verdict if k is False]
+    if bads:
+        ctx.bad('R7', cons, f'the literal is rendered with {bads[0]}; the engine decodes with java.util.Base64.getDecoder (standard alphabet, no line breaks): the bytes it gets are not '
+                            f'self._typ._to_encoding(self._value)', im.path, ev.lineno)
+    else:
+        unk = [t for k, t in verdict if k is None]
+        ctx.need(not unk, f'{cons}: {unk[0] if unk else ""}')
+        ctx.ok('R7', cons, {'encoders': sorted({t for _, t in verdict})})
     hs = im.func('EncodedLiteral.head_str')
-    rets = [n for n in ast.walk(hs) if isinstance(n, ast.Return)]
-    tmpl = pf.fstring_template(rets[0].value, lambda e: '{' + pf.nsrc(e) + '}') if len(rets) == 1 else None
-    ctx.check(tmpl == '{self._typ._parsable_string()} "{self.encoded_value}"', 'R7', f'{IRPY}::EncodedLiteral.head_str',
-              f'rendered as `{tmpl}`; the parser expects <type> "<base64>"', im.path, hs.lineno)
+    rets = [n for n in pf.walk_shallow(hs) if isinstance(n, ast.Return) and n.value is not None]
+    ctx.need(len(rets) == 1, f'{IRPY}::EncodedLiteral.head_str: expected one return')
+    from engines import c32strdec as SDX
+    from engines import strparts
+    try:
+        parts = strparts.parts(SDX.as_fstring(rets[0].value))
+    except AnalysisError as e_:
+        raise AnalysisError(f'{IRPY}::EncodedLiteral.head_str: {e_}')
+    skeleton = [t if k == 'lit' else None for k, t in parts]
+    holes = [t for k, t in parts if k == 'expr']
+    hme = W.param_names(hs)[0]
+    ctx.need(len(holes) == 2, f'{IRPY}::EncodedLiteral.head_str: renders {len(holes)} values, expected the type and the encoded text')
+    ctx.need(holes[0] == f'{hme}._typ._parsable_string()' and holes[1] in (f'{hme}.encoded_value',),
+             f'{IRPY}::EncodedLiteral.head_str: renders `{holes[0]}` and `{holes[1]}`, not recognised as the parsable type and the encoded_value property')
+    ctx.check(skeleton == [None, ' "', None, '"'], 'R7', f'{IRPY}::EncodedLiteral.head_str',
+              f'rendered as `{"".join(t if k == "lit" else "{" + t + "}" for k, t in parts)}`; the parser expects <type> "<base64>"', im.path, hs.lineno)
+    # the parser arm: type first, standard base64, the Python-specific encoding of that type, an unframed stream
     arm = _tokens_of_case(PARSER, 'EncodedLiteral')
-    need = ['valtyp=type_expr(it)', 'Base64.getDecoder.decode(string_literal(it))', 'EType.fromPythonTypeEncoding(typ)', 'BufferSpec.unblockedUncompressed']
-    miss = [x for x in need if x not in arm]
-    order_ok = not miss and arm.index(need[0]) < arm.index(need[1])
-    ctx.check(not miss and order_ok, 'R7', f'{PARSER}::case "EncodedLiteral"',
-              (f'the parser arm lacks {miss}' if miss else 'the parser reads the base64 string before the type') + ': the literal is not decoded with the Python-specific encoding of its own type over an unframed stream',
-              repo_path(PARSER), 0)
-    bs = S.load(BUFSPEC).val('object:BufferSpec', 'unblockedUncompressed')
-    ctx.check(X.from_scala(bs) == ('new', 'StreamBufferSpec', []), 'R7', f'{BUFSPEC}::BufferSpec.unblockedUncompressed', f'unblockedUncompressed is `{X.show(bs)}`, not a plain StreamBufferSpec (Python sends raw bytes without block framing)',
-              repo_path(BUFSPEC), 0)
+    pcons = f'{PARSER}::case "EncodedLiteral"'
+    problems: List[str] = []
+    unknown: List[str] = []
+    i_t, i_s = arm.find('type_expr(it)'), arm.find('string_literal(it)')
+    if i_t < 0 or i_s < 0:
+        unknown.append('the reads of the type / the string literal are not found')
+    elif i_s < i_t:
+        problems.append('the parser reads the base64 string before the type (the text carries the type first)')
+    import re as _re
+    decs = set(_re.findall(r'Base64\.(get\w*)', arm))
+    if not decs:
+        unknown.append('no java.util.Base64 decoder found')
+    elif decs != {'getDecoder'}:
+        problems.append(f'the string is decoded with Base64.{sorted(decs - {"getDecoder"})[0]} (Python sends the standard alphabet without line breaks)')
+    encs = set(_re.findall(r'EType\.(\w+)\(', arm))
+    if not encs:
+        unknown.append('no EType.<...>(typ) found')
+    elif encs != {'fromPythonTypeEncoding'}:
+        problems.append(f'the bytes are decoded with EType.{sorted(encs - {"fromPythonTypeEncoding"})[0]}, not with the Python-specific encoding EType.fromPythonTypeEncoding')
+    specs = set(_re.findall(r'BufferSpec\.(\w+)', arm))
+    if not specs:
+        unknown.append('no BufferSpec.<...> found')
+    elif specs != {'unblockedUncompressed'}:
+        problems.append(f'the bytes are read through BufferSpec.{sorted(specs - {"unblockedUncompressed"})[0]} (Python sends raw bytes: no block framing, no compression)')
+    if problems:
+        ctx.bad('R7', pcons, '; '.join(problems) + ': the literal is not decoded with the Python-specific encoding of its own type over an unframed stream', repo_path(PARSER), 0)
+    else:
+        ctx.need(not unknown, f'{pcons}: {"; ".join(unknown)}')
+        ctx.ok('R7', pcons, {'decoder': 'Base64.getDecoder', 'encoding': 'EType.fromPythonTypeEncoding', 'buffer_spec': 'unblockedUncompressed'})
+    bs = X.from_scala(S.load(BUFSPEC).val('object:BufferSpec', 'unblockedUncompressed'))
+    bcons = f'{BUFSPEC}::BufferSpec.unblockedUncompressed'
+    if bs == ('new', 'StreamBufferSpec', []) or (bs[0] == 'call' and bs[1] == ('name', 'StreamBufferSpec') and not bs[2]):
+        ctx.ok('R7', bcons, 'a plain StreamBufferSpec')
+    else:
+        # another buffer-spec constructor is a recognised, different framing; anything else is not understood
+        other = bs[1] if bs[0] == 'new' and isinstance(bs[1], str) else (bs[1][1] if bs[0] == 'call' and bs[1][0] == 'name' else None)
+        ctx.need(isinstance(other, str) and other.endswith('BufferSpec') and other != 'StreamBufferSpec', f'{bcons}: `{X.show(bs)}` is not recognised as a buffer spec constructor')
+        ctx.bad('R7', bcons, f'unblockedUncompressed is `{X.show(bs)}`, not a plain StreamBufferSpec (Python sends raw bytes without block framing)', repo_path(BUFSPEC), 0)
     # results
     bm = pf.load(BACKEND)
     ex = bm.func('Backend.execute')
-    srcs = [pf.nsrc(c) for c in pf.calls_in(ex)]
-    ok = 'ir.typ._from_encoding(result)' in srcs
-    codec = [k.value for c in pf.calls_in(ex) if pf.dotted(c.func) == 'ExecutePayload' for k in c.keywords if k.arg == 'stream_codec']
-    ok2 = len(codec) == 1 and pf.const_str(codec[0]) is not None and pf.const_str(codec[0]).replace(' ', '') == '{"name":"StreamBufferSpec"}'
-    ctx.check(ok and ok2, 'R7', f'{BACKEND}::Backend.execute', 'results are not decoded with ir.typ._from_encoding from an unframed StreamBufferSpec stream', bm.path, ex.lineno)
+    decs_ = [c for c in pf.calls_in(ex) if isinstance(c.func, ast.Attribute) and c.func.attr in ('_from_encoding', '_from_json', '_convert_from_json_na', '_convert_from_encoding')]
+    xcons = f'{BACKEND}::Backend.execute'
+    ctx.need(len(decs_) >= 1, f'{xcons}: no decoding of the result found')
+    codec = [k.value for c in pf.calls_in(ex) if (pf.dotted(c.func) or '').split('.')[-1] == 'ExecutePayload' for k in c.keywords if k.arg == 'stream_codec']
+    ctx.need(len(codec) == 1, f'{xcons}: expected one ExecutePayload(stream_codec=...)')
+    cexpr = pf.resolve_expr(ex, codec[0])
+    if isinstance(cexpr, ast.Name):
+        try:
+            cexpr = bm.global_assign(cexpr.id)   # a module-level constant
+        except AnalysisError:
+            pass
+    ctext = pf.const_str(cexpr)
+    ctx.need(ctext is not None, f'{xcons}: stream_codec `{pf.nsrc(codec[0])[:60]}` is not a string literal')
+    import json as _json
+    try:
+        cj = _json.loads(ctext)
+    except ValueError:
+        cj = None
+    ctx.need(isinstance(cj, dict) and isinstance(cj.get('name'), str), f'{xcons}: stream_codec {ctext!r} is not a JSON object with a name')
+    msg = []
+    if cj != {'name': 'StreamBufferSpec'}:
+        msg.append(f'results are requested with stream_codec {ctext!r} (a framed / compressed stream), but decoded as the raw bytes of an unframed StreamBufferSpec stream')
+    wrong = [c for c in decs_ if c.func.attr != '_from_encoding']
+    if wrong:
+        msg.append(f'results are decoded with `{pf.nsrc(wrong[0].func)}`, not with _from_encoding')
+    ctx.check(not msg, 'R7', xcons, '; '.join(msg), bm.path, ex.lineno)
     d = S.load(BACKSC).def_('object:Backend', 'encodeToOutputStream')
-    txt = ''
-    for n in S.walk(X.from_scala(d.body)):
-        if n and n[0] == 'call' and n[1] == ('name', 'TypedCodecSpec'):
-            txt = X.show(n)
-    ctx.check(txt.startswith('TypedCodecSpec(EType.fromPythonTypeEncoding(elementType.virtualType), elementType.virtualType, bufferSpec'), 'R7', f'{BACKSC}::Backend.encodeToOutputStream',
-              f'results are encoded with `{txt}`, not with EType.fromPythonTypeEncoding of the result type', repo_path(BACKSC), d.line)
+    body = X.from_scala(d.body)
+    vals = _scala_vals(d.stmts())
+    tcs = [n for n in S.walk(body) if n and n[0] == 'call' and n[1] == ('name', 'TypedCodecSpec')]
+    scons = f'{BACKSC}::Backend.encodeToOutputStream'
+    ctx.need(len(tcs) == 1 and len(tcs[0][2]) >= 1, f'{scons}: expected one TypedCodecSpec(...)')
+    a0 = tcs[0][2][0][1]
+    for _ in range(3):
+        if a0[0] == 'name' and a0[1] in vals:
+            a0 = vals[a0[1]]
+    ctx.need(a0[0] == 'call' and a0[1][0] == 'name' and a0[1][1].startswith('EType.'), f'{scons}: the encoded type `{X.show(a0)}` is not an EType.<...>(...) call')
+    ctx.check(a0[1][1] == 'EType.fromPythonTypeEncoding', 'R7', scons,
+              f'results are encoded with `{X.show(tcs[0])}`, not with EType.fromPythonTypeEncoding of the result type', repo_path(BACKSC), d.line)
 
 
 _PURITY_CONTROL = """
@@ -1962,6 +2143,25 @@ def _r9(ctx: Ctx, m: pf.Module, classes: Dict[str, ast.ClassDef]):
         for nm in W.methods(c):
             if is_codec(nm) and f'{cname}.{nm}' not in flagged:
                 ctx.ok('R9', f'{F}::{cname}.{nm}::pure', 'no state that outlives the call flows into the result')
+    # the literal entry point: the text EncodedLiteral sends must be the encoding of the value it wraps NOW - a memo of encoded texts has to be keyed by
+    # every input of the text (the type and the value's content; the identity of a mutable value is not its content)
+    im = pf.load(IRPY)
+    try:
+        lit = {'EncodedLiteral': im.cls('EncodedLiteral')}
+    except AnalysisError:
+        lit = {}
+    ctx.need(lit, f'anchor vanished: {IRPY}::EncodedLiteral')
+    is_entry = lambda n: n in ('encoded_value', 'head_str', 'copy', '_eq')
+    lf, n_entry = W.codec_state(im, lit, is_entry)
+    ctx.need(n_entry >= 2, f'{IRPY}::EncodedLiteral: encoded_value / head_str not found')
+    for f in lf:
+        if f.kind == 'violation':
+            ctx.bad('R9', f.construct, f.message + ' (a literal over a python object that was mutated in place since it was first rendered is sent with its OLD contents)'
+                    if 'id(' in f.message else f.message, im.path, f.line, f.detail)
+        elif f.kind == 'ok':
+            ctx.ok('R9', f.construct, f.message)
+        else:
+            undecided.append(f.message)
     cm = pf.Module('<control>', '<control>', _PURITY_CONTROL, ast.parse(_PURITY_CONTROL))
     cf, _ = W.codec_state(cm, W.hail_type_classes(cm), is_codec)
     ctx.need(any(f.kind == 'violation' and 'self.param' in f.message for f in cf), 'internal: purity analysis does not flag its positive control')
@@ -2387,12 +2587,17 @@ def run(ctx: Ctx) -> None:
     ctx.assume('frozen EType layouts: EArray/EUnsortedSet/EDictAsUnsortedArrayOfPairs = int32 n, ceil(n/8) missing bytes iff the element type is not required, present elements; '
                'EBaseStruct = one missing bit per non-required field then present fields; EBinary = int32 n + n bytes; ENDArrayColumnMajor = int64 per dimension + all elements')
     ctx.assume('the host is little-endian (struct "=" is native byte order with standard sizes)')
-    m = pf.load(F)
-    classes = W.hail_type_classes(m)
-    ctx.need(len(classes) >= 20, f'expected >= 20 HailType subclasses in {F}, found {len(classes)}')
+    m_raw = pf.load(F)
+    raw_classes = W.hail_type_classes(m_raw)
+    ctx.need(len(raw_classes) >= 20, f'expected >= 20 HailType subclasses in {F}, found {len(raw_classes)}')
     ctx.unit('files', 12)
-    ctx.unit('classes', len(classes))
-    _r9(ctx, m, classes)   # first: an established history dependence is reported even if a later, shape-dependent rule declines
+    ctx.unit('classes', len(raw_classes))
+    _r9(ctx, m_raw, raw_classes)   # first: an established history dependence is reported even if a later, shape-dependent rule declines
+    # every other rule reads types.py in normal form (engines/c32norm.py, mode 'cheap': no call is moved, so the order of stream operations is untouched):
+    # tuple assignments split, locals that hold a load chain (self._array_repr.element_type, self.element_type, ...) substituted, conditional-expression
+    # returns and guard clauses (return / raise / continue) as if/else.  Helpers are inlined by the wire-program extractor where they receive the stream.
+    m = N.normalise_module(m_raw, lambda c, f: 'cheap', inline=False, accumulate=False)
+    classes = W.hail_type_classes(m)
     _r10(ctx, m, classes)  # likewise: a skipped freeze duty is not about bytes and is decided without the wire programs
     _freeze_forwarding(ctx, m, classes)
     _r1(ctx)
